@@ -104,6 +104,13 @@ def run(op):
         import cdd.docstring.parse
         ir = cdd.docstring.parse.docstring(op["text"], **(op.get("parse_opts") or {}))
         return cdd.docstring.emit.docstring(ir, **opts)
+    if kind == "merge_all":
+        # what gen / exmod do when the output module already exists: merge the two modules, then their __all__ lists
+        import cdd.shared.ast_utils
+        from cdd.shared.source_transformer import to_code
+        merged = cdd.shared.ast_utils.merge_modules(ast.parse(op["first"]), ast.parse(op["second"]))
+        cdd.shared.ast_utils.merge_assignment_lists(merged, "__all__")
+        return to_code(merged)
     raise ValueError("unknown pure op kind %r" % kind)
 
 
